@@ -435,6 +435,34 @@ func Verif_C05_TLSF_Search(cfg int) {
 		s.allocRange2(rest)
 		s.free(2, true)
 		s.free(0, true)
+	} else if cfg/10 == 4 {
+		// three holes of concrete sizes 60, 50, 40 (one free list) separated by live 16-byte allocations, freed in any
+		// order, 8 trailing free bytes; then two arbitrary operations (a free next to a hole merges it into
+		// another list, an allocation can consume the merged hole) before the request under test
+		var holes []BlockAllocationHandle
+		for _, h := range []int{60, 50, 40} {
+			s.allocRange("holeSize", h, h)
+			holes = append(holes, s.live[len(s.live)-1].h)
+			s.allocRange("sepSize", 16, 16)
+		}
+		s.allocRange("fill", s.m.SumFreeSize()-8, s.m.SumFreeSize()-8) // 8 bytes stay free at the end
+		perm := [][]int{{0, 1, 2}, {0, 2, 1}, {1, 0, 2}, {1, 2, 0}, {2, 0, 1}, {2, 1, 0}}[verifChoice("holeFreeOrder", 6)]
+		for _, k := range perm {
+			for i := range s.live {
+				if s.live[i].h == holes[k] {
+					s.free(i, true)
+					break
+				}
+			}
+		}
+		for step := 0; step < 2; step++ {
+			switch verifChoice("op", 2) {
+			case 0:
+				s.alloc(false, true)
+			case 1:
+				s.free(verifChoice("victim", len(s.live)), true)
+			}
+		}
 	} else {
 		n := 3
 		if verifTier() == 1 {
